@@ -62,10 +62,35 @@ structure RemoteFile where
   mtimeSec : Option Nat
 deriving Repr, DecidableEq
 
+/-- How a writer opens its output path. `create` is `File::create` (`O_CREAT | O_TRUNC`): whatever
+    the path held is gone. `keep` is an `OpenOptions` open without truncation: the old bytes stay
+    until they are overwritten. Which one the code uses is regenerated from the source
+    (`Generated.HELPER_*_TRUNCATES`). -/
+inductive OpenMode where
+  | create
+  | keep
+deriving Repr, DecidableEq
+
+def OpenMode.ofTruncates (b : Bool) : OpenMode := if b then .create else .keep
+
+/-- the bytes of the opened output file; `prior` is what the path held before (`none`: nothing). -/
+def openOutput : OpenMode → Option Bytes → Bytes
+  | .create, _ => []
+  | .keep, prior => prior.getD []
+
+/-- `write_all(data)` at offset 0 of the opened file: bytes beyond the data survive. -/
+def writeAll (file data : Bytes) : Bytes := data ++ file.drop data.length
+
 /-- `sy-remote receive-file <out> [--mtime s]`; `none`: the process fails before creating the file
     (`decompress(..)?` precedes `File::create`). -/
 def receiveFile (Z : Codec) (stdin : Bytes) (mtimeArg : Option Nat) : Option RemoteFile :=
   (sniff Z stdin).map fun data => { content := data, mtimeSec := mtimeArg }
+
+/-- `receive-file` over a destination path that already holds `prior`, with the open mode `mode`. -/
+def receiveFileOver (mode : OpenMode) (Z : Codec) (prior : Option Bytes) (stdin : Bytes)
+    (mtimeArg : Option Nat) : Option RemoteFile :=
+  (sniff Z stdin).map fun data =>
+    { content := writeAll (openOutput mode prior) data, mtimeSec := mtimeArg }
 
 /-- `metadata.modified().ok().and_then(|t| t.duration_since(UNIX_EPOCH).ok()).map(|d| d.as_secs())`:
     source mtime in nanoseconds since the epoch (`none`: unavailable / before the epoch) to whole seconds. -/
